@@ -5,7 +5,8 @@
 (* The configuration interface of FlowIRConcrete / FlowIRExperiment-       *)
 (* Configuration as a state machine: a description D (what raw() returns), *)
 (* the per-platform cache of fully resolved component configurations       *)
-(* (FlowIRConcrete._cache) and the copy that was last handed to a caller.  *)
+(* (FlowIRConcrete._cache) and the dictionary the caller still holds from  *)
+(* its last successful query (`handed`).                                   *)
 (* One action per API call; each mutator invalidates exactly what the code *)
 (* invalidates (flowir.py: get_component(return_copy=False), update_/      *)
 (* delete_component, set_*_variable, get_platform_*_variables(return_copy  *)
@@ -25,7 +26,10 @@
 (*                                    | "X" = a literal that is no integer *)
 (* The layers of v are: default global / default stage / platform global / *)
 (* platform stage / component variables (the order of                      *)
-(* get_component_variables).                                               *)
+(* get_component_variables).  Resolve below is the fragment of the layering*)
+(* rules this property needs (the full rules are the subject of C04); it   *)
+(* is bound to the code twice: against the live object and against a brand *)
+(* new FlowIRConcrete built from raw().                                    *)
 (*                                                                         *)
 (* Named deviations of the code that the design (the invariants) must not  *)
 (* depend on, selected by constants:                                       *)
@@ -90,6 +94,7 @@ VARIABLES D,       \* [gv : [Plats -> ValsU], sv : [Plats -> [Stages -> ValsU]],
           last     \* the last call and what it returned (history variable, hidden by the VIEW)
 vars == <<D, cache, handed, last>>
 View == <<D, cache, handed>>
+DesignView == <<D, cache>>     \* handed only enables MutateReturned, which changes neither D nor cache
 
 Keys == Comps \X Plats
 Ok(v, a, n) == [kind |-> "ok", v |-> v, args |-> a, np |-> n]
